@@ -217,7 +217,7 @@ func init() {
 		seen := 5
 		sims := 60
 		if c.Thorough {
-			seen = 7
+			seen = 6 // 7 is 16.1 M states and 15 minutes (measured); 6 keeps the tier within minutes
 			sims = 3000
 		}
 		cfg := fmt.Sprintf("SPECIFICATION Spec\nCONSTANTS\n  Labels = {0, 1, 2}\n  MaxBatch = 3\n  MaxSeen = %d\n  MaxBad = 2\nVIEW ViewFull\nINVARIANTS MatchedOverTotal Bounds\nPROPERTIES RejectedChangesNothing\nCHECK_DEADLOCK FALSE\n", seen)
